@@ -136,7 +136,13 @@ func checkElem(path string, e crdt.Element, m *val) *kit.Failure {
 		if len(members) != len(m.obj) {
 			return kit.Failf("OBJECT-MEMBERS", "%s: Members() has %d keys, model %d (%s)", path, len(members), len(m.obj), m.marshal())
 		}
-		for k, mv := range m.obj {
+		keys := make([]string, 0, len(m.obj))
+		for k := range m.obj {
+			keys = append(keys, k)
+		}
+		sort.Strings(keys) // deterministic failure messages
+		for _, k := range keys {
+			mv := m.obj[k]
 			if !x.Has(k) {
 				return kit.Failf("OBJECT-HAS", "%s: Has(%q)=false, model has %s", path, k, mv.marshal())
 			}
